@@ -153,7 +153,7 @@ def scenarios(tier):
             mid = [28, 35, 63, 64, 70, 71, 84]
             large = [255, 1779, 1785]
         else:
-            small = [61, 120, 121, 179, 181]
+            small = [61, 82, 120, 121, 143, 179, 181]      # 82, 143: a short last segment of 22 / 23 bytes (FD length 32 after padding)
             mid = [119, 180, 240, 241, 600, 601]
             large = [1785, 15300]
         wins = [1, 2, 3, 255] if quick else [1, 2, 3, 5, 8, 255]
